@@ -398,6 +398,414 @@ fn run_ws_case(m: &mut Model, ops: &[Op], max_txs: usize, auto_merge: bool) -> W
     out
 }
 
+// ------------------------------------------------------------------ stream L: sequential commits that fail LATE
+//
+// `TensorChain::commit` can fail after the workspace's operations were applied to the store: `Chain::append`
+// rejects the block it has just built.  Without a second thread this is reachable through the public API by removing
+// the node's own key from the validator registry (`validator_registry().remove(node_id)`): at height >= 1 `append`
+// answers "unknown proposer".  (The other late exits of `commit` are not reachable sequentially: `TensorStore::put`
+// and `compute_state_root` do not fail on an in-memory store, `new_block()` reads height/tip right before `append`,
+// and a node id is derived from its key, so no other key can be registered under it.)
+// Oracle, evaluated on the implementation alone around EVERY commit that returns an error: height, tip hash, every
+// block 0..=height, the state root and the canonical dump of ALL keys and values of the store are what they were
+// immediately before the call; `verify()` succeeds once the key is registered again.
+
+#[derive(Clone, Debug)]
+enum LOp {
+    Begin(u64),
+    Put(usize, u64, u64),
+    Del(usize, u64),
+    Commit(usize),
+    Rollback(usize),
+    Unreg,
+    Rereg,
+    State,
+}
+fn show_lop(o: &LOp) -> String {
+    match o {
+        LOp::Begin(d) => format!("begin dir={d}"),
+        LOp::Put(w, k, v) => format!("put {w} {k} {v}"),
+        LOp::Del(w, k) => format!("del {w} {k}"),
+        LOp::Commit(w) => format!("commit {w}"),
+        LOp::Rollback(w) => format!("rollback {w}"),
+        LOp::Unreg => "unregister own key".into(),
+        LOp::Rereg => "register own key".into(),
+        LOp::State => "state".into(),
+    }
+}
+fn lops_well_formed(ops: &[LOp]) -> bool {
+    let mut n = 0usize;
+    for o in ops {
+        match o {
+            LOp::Begin(_) => n += 1,
+            LOp::Put(w, ..) | LOp::Del(w, _) | LOp::Commit(w) | LOp::Rollback(w) => {
+                if *w >= n {
+                    return false;
+                }
+            }
+            _ => {}
+        }
+    }
+    true
+}
+
+type Dump = BTreeMap<String, Vec<(String, Vec<u8>)>>;
+/// every key of the store with its fields in canonical (sorted, serialized) form
+fn store_dump(s: &TensorStore) -> Dump {
+    let mut out = Dump::new();
+    for k in s.scan("") {
+        let v = match s.get(&k) {
+            Ok(td) => {
+                let mut f: Vec<(String, Vec<u8>)> = td.keys().map(|fk| (fk.clone(), bitcode::serialize(td.get(fk).unwrap()).unwrap_or_default())).collect();
+                f.sort();
+                f
+            }
+            Err(_) => vec![("<scanned but unreadable>".to_string(), vec![])],
+        };
+        out.insert(k, v);
+    }
+    out
+}
+
+/// everything the property speaks about: chain head, every block through the public getter, the whole store
+#[derive(PartialEq)]
+struct ChainSnap {
+    height: u64,
+    tip: [u8; 32],
+    blocks: Vec<Result<Option<Vec<u8>>, String>>,
+    root: Result<[u8; 32], String>,
+    dump: Dump,
+}
+fn chain_snap(tc: &TensorChain, store: &TensorStore) -> ChainSnap {
+    let height = tc.height();
+    ChainSnap {
+        height,
+        tip: tc.tip_hash(),
+        blocks: (0..=height).map(|h| tc.get_block(h).map(|b| b.map(|b| bitcode::serialize(&b).unwrap_or_default())).map_err(|e| e.to_string())).collect(),
+        root: compute_state_root(store).map_err(|e| e.to_string()),
+        dump: store_dump(store),
+    }
+}
+fn snap_diff(a: &ChainSnap, b: &ChainSnap) -> Vec<String> {
+    let mut out = Vec::new();
+    if a.height != b.height {
+        out.push(format!("height {} -> {}", a.height, b.height));
+    }
+    if a.tip != b.tip {
+        out.push(format!("tip hash {} -> {}", hex(&a.tip[..6]), hex(&b.tip[..6])));
+    }
+    let show = |x: Option<&Result<Option<Vec<u8>>, String>>| match x {
+        None => "beyond height".to_string(),
+        Some(Ok(Some(_))) => "present".to_string(),
+        Some(Ok(None)) => "MISSING".to_string(),
+        Some(Err(e)) => format!("error {e}"),
+    };
+    for h in 0..a.blocks.len().max(b.blocks.len()) {
+        if a.blocks.get(h) != b.blocks.get(h) {
+            out.push(format!("get_block({h}): {} -> {}", show(a.blocks.get(h)), if a.blocks.get(h).is_some() && b.blocks.get(h).is_some() && show(a.blocks.get(h)) == show(b.blocks.get(h)) { "different content".to_string() } else { show(b.blocks.get(h)) }));
+        }
+    }
+    if a.root != b.root {
+        out.push("state root differs".into());
+    }
+    let keys: BTreeSet<&String> = a.dump.keys().chain(b.dump.keys()).collect();
+    for k in keys {
+        match (a.dump.get(k), b.dump.get(k)) {
+            (Some(x), Some(y)) if x == y => {}
+            (Some(_), Some(_)) => out.push(format!("store key {k}: value changed")),
+            (Some(_), None) => out.push(format!("store key {k}: GONE")),
+            (None, Some(_)) => out.push(format!("store key {k}: NEW")),
+            (None, None) => {}
+        }
+    }
+    out
+}
+
+struct LfFail {
+    kind: String,
+    k: u64,
+    nops: usize,
+}
+struct LfOutcome {
+    disagreements: Vec<(String, String, String)>,
+    violations: Vec<(String, String, Value)>,
+    fails: Vec<LfFail>,
+    hits: Vec<String>,
+    commits_ok: u64,
+}
+
+/// `verify()` with the node's own key registered (temporarily, if the history has removed it)
+fn verify_registered(tc: &TensorChain) -> String {
+    let me = tc.node_id().clone();
+    let had = tc.validator_registry().contains(&me);
+    if !had {
+        tc.register_validator(tc.identity());
+    }
+    let v = vres(tc.verify());
+    if !had {
+        let _ = tc.validator_registry().remove(&me);
+    }
+    v
+}
+
+/// Run one history on a fresh real `TensorChain` and on the model; the failed-commit oracle runs around every commit.
+fn run_late_case(m: &mut Model, ops: &[LOp], max_txs: usize, auto_merge: bool) -> LfOutcome {
+    let mut out = LfOutcome { disagreements: vec![], violations: vec![], fails: vec![], hits: vec![], commits_ok: 0 };
+    let store = TensorStore::new();
+    let mut cfg = ChainConfig::new("n").with_max_txs(max_txs);
+    cfg.auto_merge = AutoMergeConfig { enabled: auto_merge, orthogonal_threshold: 0.1, max_merge_batch: 10, merge_window_ms: u64::MAX / 4 };
+    let tc = TensorChain::with_config(store.clone(), cfg);
+    tc.initialize().unwrap();
+    m.ask(&format!("init {max_txs} {} 10 0", u8::from(auto_merge)));
+    let me = tc.node_id().clone();
+    let mut wss: Vec<Arc<TransactionWorkspace>> = Vec::new();
+    let mut begin_height: Vec<u64> = Vec::new();
+    let mut ts = 1u64;
+    for (i, op) in ops.iter().enumerate() {
+        let (imp, model, tag): (String, String, &str) = match op {
+            LOp::Begin(d) => {
+                let w = tc.begin().unwrap();
+                w.set_before_embedding(&vec![0.0; DIM]);
+                w.compute_delta(&unit(*d));
+                wss.push(w);
+                begin_height.push(tc.height());
+                let a = m.ask("begin");
+                let id = wss.len() - 1;
+                m.ask(&format!("dir {id} {d}"));
+                (format!("ws {id}"), a, "begin")
+            }
+            LOp::Put(w, k, v) => {
+                let r = wss[*w].add_operation(Tx::Put(*k, *v).real());
+                (r.map_or_else(|e| verr(&e), |()| "ok".into()), m.ask(&format!("put {w} {k} {v}")), "put")
+            }
+            LOp::Del(w, k) => {
+                let r = wss[*w].add_operation(Tx::Del(*k).real());
+                (r.map_or_else(|e| verr(&e), |()| "ok".into()), m.ask(&format!("del {w} {k}")), "del")
+            }
+            LOp::Commit(w) => {
+                let nops = wss[*w].operation_count();
+                let was_active = wss[*w].is_active();
+                let states_before: Vec<TransactionState> = wss.iter().map(|x| x.state()).collect();
+                let verify_before = verify_registered(&tc);
+                let before = chain_snap(&tc, &store);
+                let r = tc.commit(&wss[*w]);
+                ts += 1;
+                let imp = match &r {
+                    Ok(_) if nops == 0 && was_active => "empty".to_string(),
+                    Ok(_) => {
+                        let h = tc.height();
+                        let txs = read_block(&store, h).map(|b| b.transactions.iter().map(show_real_tx).collect::<Vec<_>>()).unwrap_or_default();
+                        out.commits_ok += 1;
+                        format!("ok h={h} txs={}", show_list(txs, true))
+                    }
+                    Err(e) => {
+                        let after = chain_snap(&tc, &store);
+                        let mut diff = snap_diff(&before, &after);
+                        // the failed workspace's writes must be absent (implied by the dump; said explicitly)
+                        for o in wss[*w].operations() {
+                            if let Transaction::Put { key, .. } | Transaction::Delete { key } = &o {
+                                if before.dump.get(key) != after.dump.get(key) {
+                                    diff.push(format!("operation of the failed workspace visible in the store: {}", show_real_tx(&o)));
+                                }
+                            }
+                        }
+                        let verify_after = verify_registered(&tc);
+                        let merged = wss.iter().enumerate().filter(|(j, x)| j != w && states_before[*j] == TransactionState::Active && x.state() == TransactionState::Failed).count();
+                        let es = verr(e);
+                        let kind = match es.as_str() {
+                            "err bad_sig" if merged > 0 => "late_unknown_proposer_merged".to_string(),
+                            "err bad_sig" => "late_unknown_proposer".to_string(),
+                            "err too_many" => "early_too_many".to_string(),
+                            "err conflict" => "early_conflict".to_string(),
+                            "err not_active" => "early_not_active".to_string(),
+                            o => format!("other_{}", o.replace(' ', "_")),
+                        };
+                        let k = tc.height().saturating_sub(begin_height[*w]);
+                        if !diff.is_empty() || (verify_before == "ok" && verify_after != "ok") {
+                            diff.dedup();
+                            let total = diff.len();
+                            diff.truncate(16);
+                            out.violations.push((
+                                "tensor_chain.commit/failed_commit_not_atomic".into(),
+                                format!(
+                                    "sequential history: commit of workspace {w} returned an error ({es}, {kind}) after {k} other commit(s) since its begin, and chain/store are not what they were immediately before the call: {}",
+                                    diff.first().cloned().unwrap_or_else(|| format!("verify() with the key registered: {verify_before} -> {verify_after}"))
+                                ),
+                                json!({"failed_commit_at_op": i, "workspace": w, "error": e.to_string(), "failure_kind": kind, "commits_since_its_begin": k, "workspace_ops": nops,
+                                    "merged_workspaces_failed_with_it": merged, "differences_before_vs_after": diff, "differences_total": total,
+                                    "height_before": before.height, "height_after": after.height, "verify_before_key_registered": verify_before, "verify_after_key_registered": verify_after}),
+                            ));
+                        }
+                        out.fails.push(LfFail { kind, k, nops });
+                        es
+                    }
+                };
+                let model = m.ask(&format!("commit {w} {ts}"));
+                let model = model.split(" merged=").next().unwrap_or("").replace("append_", "");
+                (imp, model, "commit")
+            }
+            LOp::Rollback(w) => {
+                let r = tc.rollback(&wss[*w]);
+                (r.map_or_else(|e| verr(&e), |()| "ok".into()), m.ask(&format!("rollback {w}")), "rollback")
+            }
+            LOp::Unreg => {
+                let r = tc.validator_registry().remove(&me);
+                ((if r.is_some() { "removed" } else { "absent" }).to_string(), m.ask("unreg"), "unreg")
+            }
+            LOp::Rereg => {
+                tc.register_validator(tc.identity());
+                ("ok".to_string(), m.ask("rereg"), "rereg")
+            }
+            LOp::State => (state_line(&tc, &store), m.ask("state"), "state"),
+        };
+        out.hits.push(format!("late_fail.{tag}.{}", imp.split(' ').take(2).collect::<Vec<_>>().join("_").replace(|c: char| c.is_ascii_digit() || c == '=', "")));
+        if imp != model {
+            out.disagreements.push((format!("op {i} {}", show_lop(op)), imp, model));
+        }
+    }
+    out
+}
+
+struct LateCase {
+    ops: Vec<LOp>,
+    max_txs: usize,
+    auto_merge: bool,
+    plan: String,
+}
+
+/// One history of the shape: `prefix` committed blocks; maybe a workspace begun and rolled back at once; workspace L
+/// begins and gets operations; `k` OTHER workspaces (one of them possibly begun before L) get operations and commit,
+/// L possibly getting more operations in between; maybe a further workspace M stays pending; L's commit is made to
+/// fail (`kind`); then the key is registered again, a fresh workspace commits, M commits.
+fn gen_late_case(r: &mut Rng, kind: &str, k: u64, prefix: u64) -> LateCase {
+    let late = kind.starts_with("late");
+    let prefix = if late && prefix + k == 0 { 1 } else if kind == "unreg_height0" { 0 } else { prefix };
+    let k = if kind == "unreg_height0" { 0 } else { k };
+    let auto_merge = kind == "late_merged" || r.chance(1, 3);
+    let max_txs = if kind == "early_too_many" { 3 } else { 1000 };
+    let mut ops: Vec<LOp> = Vec::new();
+    let mut nws = 0usize;
+    let mut val = 1u64;
+    let mut begin = |ops: &mut Vec<LOp>, d: u64| -> usize {
+        ops.push(LOp::Begin(d));
+        nws += 1;
+        nws - 1
+    };
+    let mut write = |ops: &mut Vec<LOp>, r: &mut Rng, w: usize, key: u64| {
+        if r.chance(1, 5) {
+            ops.push(LOp::Del(w, key));
+        } else {
+            ops.push(LOp::Put(w, key, val));
+            val += 1;
+        }
+    };
+    for _ in 0..prefix {
+        let w = begin(&mut ops, 0);
+        for _ in 0..1 + r.below(3) {
+            let key = r.below(6);
+            write(&mut ops, r, w, key);
+        }
+        ops.push(LOp::Commit(w));
+    }
+    if r.chance(1, 3) {
+        // rolled back before L begins: its checkpoint is the current store
+        let w = begin(&mut ops, 0);
+        let key = r.below(6);
+        write(&mut ops, r, w, key);
+        ops.push(LOp::Rollback(w));
+    }
+    let early_other = if k >= 1 && r.chance(1, 3) {
+        let w = begin(&mut ops, 0);
+        let key = r.below(6);
+        write(&mut ops, r, w, key);
+        Some(w)
+    } else {
+        None
+    };
+    let ldir = u64::from(kind == "late_merged" || kind == "early_conflict");
+    let l = begin(&mut ops, ldir);
+    let nl = if kind == "early_too_many" { 4 + r.below(3) } else { 1 + r.below(5) };
+    for _ in 0..nl {
+        let key = if kind == "early_conflict" { 100 } else if ldir == 1 { 100 + r.below(2) } else { r.below(6) };
+        write(&mut ops, r, l, key);
+    }
+    let mut pending: Option<usize> = None;
+    let begin_pending = |ops: &mut Vec<LOp>, r: &mut Rng, begin: &mut dyn FnMut(&mut Vec<LOp>, u64) -> usize, write: &mut dyn FnMut(&mut Vec<LOp>, &mut Rng, usize, u64)| -> Option<usize> {
+        match kind {
+            "late_merged" => {
+                let w = begin(ops, 2);
+                for _ in 0..1 + r.below(2) {
+                    let key = 200 + r.below(2);
+                    write(ops, r, w, key);
+                }
+                Some(w)
+            }
+            "early_conflict" => {
+                let w = begin(ops, 1);
+                ops.push(LOp::Put(w, 101, 7777));
+                Some(w)
+            }
+            _ if r.chance(1, 3) => {
+                let w = begin(ops, 0);
+                let key = r.below(6);
+                write(ops, r, w, key);
+                Some(w)
+            }
+            _ => None,
+        }
+    };
+    let pending_first = r.chance(1, 2);
+    if pending_first {
+        pending = begin_pending(&mut ops, r, &mut begin, &mut write);
+    }
+    for j in 0..k {
+        let o = match early_other {
+            Some(w) if j == 0 => w,
+            _ => begin(&mut ops, 0),
+        };
+        for _ in 0..1 + r.below(3) {
+            let key = r.below(6);
+            write(&mut ops, r, o, key);
+        }
+        ops.push(LOp::Commit(o));
+        if ldir == 0 && kind != "early_too_many" && r.chance(1, 3) {
+            let key = r.below(6);
+            write(&mut ops, r, l, key);
+        }
+    }
+    if !pending_first {
+        pending = begin_pending(&mut ops, r, &mut begin, &mut write);
+    }
+    match kind {
+        "late_unknown_proposer" | "late_merged" | "unreg_height0" => {
+            ops.push(LOp::Unreg);
+            if r.chance(1, 3) {
+                ops.push(LOp::State);
+            }
+            ops.push(LOp::Commit(l));
+            if r.chance(1, 3) {
+                ops.push(LOp::State);
+            }
+            ops.push(LOp::Rereg);
+        }
+        "early_not_active" => {
+            ops.push(LOp::Commit(l));
+            ops.push(LOp::Commit(l));
+        }
+        _ => ops.push(LOp::Commit(l)),
+    }
+    ops.push(LOp::State);
+    let n = begin(&mut ops, 0);
+    let key = r.below(6);
+    write(&mut ops, r, n, key);
+    ops.push(LOp::Commit(n));
+    if let Some(p) = pending {
+        ops.push(LOp::Commit(p));
+    }
+    ops.push(LOp::State);
+    LateCase { ops, max_txs, auto_merge, plan: format!("{kind} k={k} prefix={prefix}") }
+}
+
 // ------------------------------------------------------------------ stream B: raw chain, tamper
 
 struct RawChain {
@@ -829,8 +1237,8 @@ fn main() {
     let mut rep = Report::new(
         "seeded op sequences / block sequences / mutations; a case is non-trivial when it appends or commits at least one \
          block (workspace stream: >=1 successful non-empty commit; append stream: >=1 accepted block; tamper stream: one \
-         mutation applied to a stored block of a verifying chain; replay: >=1 block applied; concurrent: >=1 commit Ok); \
-         distinct = distinct canonical case text",
+         mutation applied to a stored block of a verifying chain; replay: >=1 block applied; concurrent: >=1 commit Ok; \
+         late_fail: >=1 commit of the history returned an error); distinct = distinct canonical case text",
     );
     rep.expected_branches = [
         "ws.commit.ok_h", "ws.commit.empty", "ws.commit.err_not_active", "ws.commit.err_too_many", "ws.commit.err_conflict",
@@ -839,6 +1247,9 @@ fn main() {
         "verify.ok", "verify.err height", "verify.err prev_hash", "verify.err tx_root", "verify.err timestamp", "verify.err bad_sig",
         "verify.err not_found", "verify.err empty_chain", "tamper.genesis_transactions.detected", "concurrent.directed.reproduced",
         "sched.witness.commit_lost.reproduced", "sched.witness.store_diverges.reproduced",
+        "late_fail.kind.late_unknown_proposer", "late_fail.kind.late_unknown_proposer_merged", "late_fail.kind.early_too_many",
+        "late_fail.kind.early_conflict", "late_fail.kind.early_not_active", "late_fail.late.k0", "late_fail.late.k1", "late_fail.late.k2",
+        "late_fail.late.k3", "late_fail.unreg.removed", "late_fail.rereg.ok",
     ]
     .iter()
     .map(|s| s.to_string())
@@ -924,6 +1335,91 @@ fn main() {
             rep.hit("ws.merge.block_with_merged_ops");
         }
         rep.case("workspace.merge", Some(&format!("{auto_merge}")));
+    }
+
+    // ---------------- stream L: sequential histories whose commit fails late (after the writes were applied)
+    let mut r = root.fork("late_fail");
+    let nlate = 3 + 150 * scale;
+    for case in 0..nlate {
+        let lc = match case {
+            // directed, independent of the seed, smallest first.  0: one OTHER commit between L's begin and L's late
+            // failure (k = 1); 1: no intervening commit (k = 0); 2: the Lean example `lateHistory` (Props.lean)
+            0 => LateCase {
+                ops: vec![LOp::Begin(0), LOp::Put(0, 1, 1), LOp::Begin(0), LOp::Put(1, 2, 2), LOp::Commit(1), LOp::Unreg, LOp::Commit(0), LOp::Rereg, LOp::State],
+                max_txs: 1000,
+                auto_merge: false,
+                plan: "directed late_unknown_proposer k=1 prefix=0".into(),
+            },
+            1 => LateCase {
+                ops: vec![LOp::Begin(0), LOp::Put(0, 1, 1), LOp::Commit(0), LOp::Begin(0), LOp::Put(1, 1, 9), LOp::Put(1, 2, 2), LOp::Unreg, LOp::Commit(1), LOp::Rereg, LOp::State],
+                max_txs: 1000,
+                auto_merge: false,
+                plan: "directed late_unknown_proposer k=0 prefix=1".into(),
+            },
+            2 => LateCase {
+                ops: vec![LOp::Begin(0), LOp::Put(0, 1, 1), LOp::Commit(0), LOp::Begin(0), LOp::Put(1, 1, 9), LOp::Put(1, 2, 2), LOp::Begin(0), LOp::Put(2, 3, 3), LOp::Commit(2), LOp::Unreg, LOp::Commit(1), LOp::State, LOp::Rereg, LOp::State],
+                max_txs: 1000,
+                auto_merge: true,
+                plan: "directed lateHistory (Props.lean) late_unknown_proposer k=1 prefix=1".into(),
+            },
+            _ => {
+                let c = r.below(100);
+                let kind = if c < 55 {
+                    "late_unknown_proposer"
+                } else if c < 70 {
+                    "late_merged"
+                } else if c < 78 {
+                    "early_too_many"
+                } else if c < 86 {
+                    "early_conflict"
+                } else if c < 94 {
+                    "early_not_active"
+                } else {
+                    "unreg_height0"
+                };
+                let k = r.below(4);
+                let prefix = r.below(3);
+                gen_late_case(&mut r, kind, k, prefix)
+            }
+        };
+        let out = run_late_case(&mut m, &lc.ops, lc.max_txs, lc.auto_merge);
+        let shown: Vec<String> = lc.ops.iter().map(show_lop).collect();
+        for h in &out.hits {
+            rep.hit(h);
+        }
+        for f in &out.fails {
+            rep.hit(&format!("late_fail.kind.{}", f.kind));
+            if f.kind.starts_with("late") {
+                rep.hit(&format!("late_fail.late.k{}", f.k));
+                rep.hit(&format!("late_fail.late.ops{}", f.nops));
+            }
+        }
+        if out.fails.is_empty() {
+            rep.hit("late_fail.kind.none_failed");
+        }
+        for (op, imp, model) in &out.disagreements {
+            rep.disagree("late_fail.ops", json!({"plan": lc.plan, "max_txs": lc.max_txs, "auto_merge": lc.auto_merge, "ops": shown, "at": op}), imp, model);
+        }
+        if let Some(first) = out.violations.first() {
+            let class = first.0.clone();
+            let (max_txs, auto_merge) = (lc.max_txs, lc.auto_merge);
+            let mut fails = |cand: &[LOp]| -> bool { lops_well_formed(cand) && run_late_case(&mut m, cand, max_txs, auto_merge).violations.iter().any(|v| v.0 == class) };
+            let small = if rep.violations.iter().any(|v| v["class"] == class.as_str()) { lc.ops.clone() } else { shrink_list(&lc.ops, &mut fails) };
+            let v = run_late_case(&mut m, &small, max_txs, auto_merge).violations.into_iter().find(|v| v.0 == class).unwrap_or_else(|| (first.0.clone(), first.1.clone(), first.2.clone()));
+            violation(
+                &mut rep,
+                &class,
+                &v.1,
+                json!({"stream": "late_fail", "api": "TensorChain::{begin,commit,rollback,validator_registry().remove(node_id),register_validator(identity())} + TransactionWorkspace::add_operation, single thread",
+                    "max_txs": max_txs, "auto_merge": auto_merge, "plan": lc.plan, "ops": small.iter().map(show_lop).collect::<Vec<_>>(), "oracle": v.2}),
+            );
+        }
+        let text = format!("{} {} {}", lc.max_txs, lc.auto_merge, shown.join(";"));
+        rep.case("late_fail", if out.fails.is_empty() { None } else { Some(&text) });
+        if case < 1 {
+            rep.sample(json!({"stream": "late_fail", "plan": lc.plan, "max_txs": lc.max_txs, "auto_merge": lc.auto_merge, "ops": shown,
+                "failed_commits": out.fails.iter().map(|f| format!("{} k={} ops={}", f.kind, f.k, f.nops)).collect::<Vec<_>>(), "successful_commits": out.commits_ok}));
+        }
     }
 
     // ---------------- stream B1: raw appends (valid and invalid blocks), then verify
